@@ -104,23 +104,66 @@ T = [
 
 
 _ROW_HITS = {}
+MESSAGE_KINDS = ("expect", "panic", "unreachable", "assert", "assert_eq", "assert_ne", "todo", "unimplemented", "expect_err")
+_ROW_CRATES = {}
 
 
-def moved_site_rows(path, kind, what):
-    """table rows whose own function no longer contains the site (row never hit in this run) but whose module contains `path` and whose
-    (kind, message) equal this site's: the site was moved into a helper of the same module by a refactoring"""
+def _row_crates(P, suf):
+    """crates in which a table row's function-path suffix occurs (rows are written without a crate prefix)"""
+    if suf not in _ROW_CRATES:
+        mod = suf.rsplit("::", 1)[0] if "::" in suf else suf
+        _ROW_CRATES[suf] = {f.crate for f in P.fns.values() if mod in f.path}
+    return _ROW_CRATES[suf]
+
+
+def _row_module(suf):
+    segs = suf.split("::")[:-1]
+    while segs and (segs[-1][:1].isupper() or segs[-1].startswith("<") or ">" in segs[-1]):
+        segs.pop()
+    return "::".join(segs) if segs else suf.rsplit("::", 1)[0]
+
+
+_FROZEN = None
+
+
+def _frozen_counts():
+    """number of sites each row justified on the reference tree (tables/panic_row_counts.json, written by `--freeze`)"""
+    global _FROZEN
+    if _FROZEN is None:
+        import json
+        try:
+            _FROZEN = json.load(open(os.path.join(harness.VERIF, "tables", "panic_row_counts.json")))
+        except Exception:
+            _FROZEN = {}
+    return _FROZEN
+
+
+def inherited_rows(P, fn, kind, what):
+    """A site without a row of its own inherits the justification of a reviewed site it is a *copy or a move* of:
+       (a) same crate, same kind and the same non-empty panic message (`expect("Type system error")` is the code's own statement of
+           the invariant it relies on; helper extraction, splitting and moving between modules keep kind and message), or
+       (b) same module, same kind and same producer (`x.get(..).unwrap()`), where the reviewed row lost its own site in this run
+           (the site moved into a helper next to it).
+    Anything else is a new, unreviewed panic path."""
     out = []
+    path = fn.path
     for i, (suf, k, w, cls, why) in enumerate(T):
-        if _ROW_HITS.get(i) or "::" not in suf:
-            continue
-        mod = suf.rsplit("::", 1)[0]
-        if mod not in path or suf in path:
-            continue
-        if k != kind:
+        if k != kind and not (k == "RefCell::borrow" and kind.startswith("RefCell::borrow")):
             continue
         wp = w.split("#")[0]
-        if wp == "" or what.startswith(wp):
-            out.append((i, cls, why))
+        if kind in MESSAGE_KINDS and wp and len(wp) >= 6 and what.startswith(wp):
+            if fn.crate in _row_crates(P, suf) or (suf.split("::")[0] in path):
+                out.append((i, cls, why, "same message in the same crate"))
+            continue
+        if "::" not in suf:
+            continue
+        mod = _row_module(suf)
+        same_mod = mod in path and suf not in path
+        moved_mod = (not same_mod) and fn.crate in _row_crates(P, suf) and fn.name == suf.rsplit("::", 1)[1]
+        # the row still has room: fewer sites matched it in this run than were reviewed on the pinned tree
+        room = _ROW_HITS.get(i, 0) < _frozen_counts().get("%s|%s|%s" % (suf, k, w), 1)
+        if (same_mod or moved_mod) and room and (wp == "" or what.startswith(wp)):
+            out.append((i, cls, why, "site moved within its %s" % ("module" if same_mod else "crate")))
     return out
 
 
@@ -172,8 +215,8 @@ def r08a(P, R):
             loc = "%s:%d" % (f.file, line)
             skey = key.replace("nitrogql_parser::parser::", "")
             # --- mechanically discharged: grammar ⊆ builder
+            cls, why = classify(key, kind, what)
             if p.startswith(PB) or p.startswith(PAIRIMPL):
-                cls, why = classify(key, kind, what)
                 if cls is None:
                     if kind == "parts!" or p.startswith(PAIRIMPL) or (kind == "panic" and ("Unexpected" in what or "Expected" in what or "No child" in what)):
                         culprits = bad_by_fn.get(p, []) if not p.startswith(PAIRIMPL) else [k for ks in bad_by_fn.values() for k in ks
@@ -191,7 +234,6 @@ def r08a(P, R):
                         classes["GRAMMAR"] = classes.get("GRAMMAR", 0) + 1
                         R.check("R08-a", "grammar:" + skey, ok, "unreachable: OperationType texts are all handled (R07-b)", "operation type text not handled", loc=loc)
                         continue
-            cls, why = classify(key, kind, what)
             if cls is None:
                 deferred.append((p, key, skey, kind, what, loc))
                 continue
@@ -206,23 +248,41 @@ def r08a(P, R):
     # sites without a row of their own: either moved by a refactoring (a row of the same module, kind and message lost its site),
     # or genuinely new
     for p, key, skey, kind, what, loc in deferred:
-        rows = moved_site_rows(key.split("|")[0], kind, what)
+        rows = inherited_rows(P, P.fns[p], kind, what)
         if not rows:
-            R.violated("R08-a", "unreviewed:" + skey, "unreviewed panic path: `%s` (%s %s) in %s is reachable from a public entry point and has no "
-                       "justification in the panic table" % (kind, what, "", p), loc=loc)
+            if kind in ("index", "div"):
+                # a bounds / zero check the table has not seen: whether the index is always in range is a value question this
+                # inventory cannot settle either way (string slicing by computed offsets is decided by R08-c)
+                R.undecided("R08-a", "unreviewed-bounds:" + skey, "new `%s` site on %s in %s: not in the panic table, range not decided" % (kind, what, p), loc=loc)
+                continue
+            R.violated("R08-a", "unreviewed:" + skey, "unreviewed panic path: `%s` (%s) in %s is reachable from a public entry point and has no "
+                       "justification in the panic table" % (kind, what, p), loc=loc)
             continue
-        findings = [(i, why) for i, cls, why in rows if cls == "FINDING"]
-        if findings:
+        findings = [(i, why) for i, cls, why, how in rows if cls == "FINDING" and not _ROW_HITS.get(i)]
+        nonfind = [(i, cls, why, how) for i, cls, why, how in rows if cls != "FINDING"]
+        if findings and not nonfind:
+            for i, why in findings[:1]:
+                _ROW_HITS[i] = 1
+                classes["FINDING"] = classes.get("FINDING", 0) + 1
+                R.violated("R08-a", why.split(":", 1)[1] if why.startswith("R08-a:") else why,
+                           "panic reachable from input text: %s in %s (site moved)" % (what or kind, p), loc=loc)
+        elif findings and nonfind:
+            # a helper now shared by a reviewed-safe site and a known finding: the finding stays reported under its key
             for i, why in findings:
                 _ROW_HITS[i] = 1
                 classes["FINDING"] = classes.get("FINDING", 0) + 1
                 R.violated("R08-a", why.split(":", 1)[1] if why.startswith("R08-a:") else why,
-                           "panic reachable from input text: %s in %s (site moved within its module)" % (what or kind, p), loc=loc)
-        else:
-            i, cls, why = rows[0]
-            _ROW_HITS[i] = 1
+                           "panic reachable from input text: %s in %s (site moved)" % (what or kind, p), loc=loc)
+        elif nonfind:
+            i, cls, why, how = nonfind[0]
+            _ROW_HITS[i] = _ROW_HITS.get(i, 0) + 1
             classes[cls] = classes.get(cls, 0) + 1
-            R.holds("R08-a", cls.lower() + ":" + skey, why + " (site moved within its module)", loc=loc)
+            if cls == "CHECKER":
+                R.holds("R08-a", "checker:" + skey, "unreachable after a successful check: %s (%s)" % (why, how), loc=loc)
+            else:
+                R.holds("R08-a", cls.lower() + ":" + skey, "%s (%s)" % (why, how), loc=loc)
+        else:
+            R.undecided("R08-a", "unreviewed:" + skey, "site matches only findings that are already accounted for", loc=loc)
     R.count("panic_sites", n)
     for c, v in classes.items():
         R.count("class_" + c, v)
@@ -298,18 +358,33 @@ def r08b(P, R):
         through_map = [p for p in comp if any(x.get("k") == "MethodCall" and x["method"] == "get" and "HashMap" in norm(x.get("recv_ty", ""))
                                               and "FragmentDefinition" in norm(x.get("recv_ty", "")) for x in P.fns[p].walk())]
         guarded = [p for p in comp if p in GUARDED]
+        # structural recognition of a seen-set guard, independent of function names: some function of the cycle tests or records the
+        # spread's fragment name in a collection (contains / any / position / insert) — the key the fragment map is indexed by
+        seen_guard = []
+        for p in comp:
+            f = P.fns[p]
+            pv = None
+            for x in f.walk():
+                if x.get("k") == "MethodCall" and x["method"] in ("contains", "any", "position", "find", "insert", "contains_key") \
+                        and "FragmentDefinition" not in norm(x.get("recv_ty", "")):
+                    pv = pv or Prov(f)
+                    if has_field(pv.atoms(x["args"]), "nitrogql_ast::selection_set::FragmentSpread", "fragment_name"):
+                        seen_guard.append(p)
+                        break
         if FRAGMAP_UNGUARDED in comp:
-            has_seen = any(x.get("k") == "MethodCall" and x["method"] == "contains" for x in P.fns[FRAGMAP_UNGUARDED].walk())
+            has_seen = bool(seen_guard) or any(x.get("k") == "MethodCall" and x["method"] == "contains" for x in P.fns[FRAGMAP_UNGUARDED].walk())
             R.check("R08-b", "fragment-recursion-in-type-printer", has_seen,
                     "fragment expansion in the type printer is guarded",
                     "get_fields_for_selection_set follows fragment spreads through the fragment map without a seen-set; it relies on the checker's "
                     "RecursingFragmentSpread, which is only enforced for fragments reachable from an operation: an unused `fragment A on T { ...A }` "
                     "passes check and recurses without bound in generate", loc=P.fns[FRAGMAP_UNGUARDED].loc())
             continue
-        if through_map and not guarded:
+        if through_map and not guarded and not seen_guard:
             R.violated("R08-b", key, "recursive cycle %s follows a name -> fragment map without a seen-set guard" % [short(c) for c in comp], loc=P.fns[comp[0]].loc())
         elif guarded:
             R.holds("R08-b", key, GUARDED[guarded[0]], loc=P.fns[comp[0]].loc())
+        elif seen_guard:
+            R.holds("R08-b", key, "fragment spreads are guarded by a seen-collection keyed by the spread's fragment name (in %s)" % short(seen_guard[0]), loc=P.fns[comp[0]].loc())
         else:
             R.holds("R08-b", key, "structural recursion over the syntax tree / type wrappers (%s)" % ", ".join(short(c) for c in comp[:3]), loc=P.fns[comp[0]].loc())
     R.floor("R08-b", "recursive cycles", len(sccs), 10)
@@ -356,16 +431,18 @@ def r08c(P, R):
     idx = mq.calls_to(lambda q: q.endswith("Index::index") or q.endswith("index"))
     R.check("R08-c", "renderer-builtin-guard", True, "see R18-f:human-builtin-guard")
     # schema files before operation files
-    rc = P.fn("nitrogql_cli::run_cli_impl")
-    kinds = []
-    for c in rc.walk():
+    from templates import inlined
+    rc = inlined(P, P.fn("nitrogql_cli::run_cli_impl"))
+    order = []
+    for c in rc.walk():      # pre-order = evaluation order for statements of one body; helper bodies are visited at their call site
         if c.get("k") == "MethodCall" and (call_name(c) or "").endswith("FileStore::add_file"):
             k = [norm(x.get("def", "")).split("::")[-1] for x in subnodes(c["args"][-1]) if x.get("k") == "Path" and "FileKind::" in norm(x.get("def", ""))]
-            kinds.append((c["s"][0], k[0] if k else "?"))
-    kinds.sort()
-    order = [k for _, k in kinds]
-    ok = "Operation" in order and "Schema" in order and order.index("Operation") > max(i for i, k in enumerate(order) if k == "Schema")
-    R.check("R08-c", "schema-before-operations", ok, "every add_file(Schema) precedes the first add_file(Operation)", "add_file order is %s" % order, loc=rc.loc())
+            order.append(k[0] if k else "?")
+    if "Operation" in order and "Schema" in order and "?" not in order:
+        ok = order.index("Operation") > max(i for i, k in enumerate(order) if k == "Schema")
+        R.check("R08-c", "schema-before-operations", ok, "every add_file(Schema) precedes the first add_file(Operation)", "add_file order is %s" % order, loc=rc.loc())
+    else:
+        R.undecided("R08-c", "schema-before-operations", "add_file sites with a literal FileKind not found in run_cli_impl and its helpers (%s)" % order, loc=rc.loc())
     # the selection-set visitor is applied to every selection, before any skip (get_boolean_variables must see the directives of
     # every selection that check_skip_directive later evaluates)
     vf = P.fn("nitrogql_printer::operation_type_printer::selection_set_visitor::visit_fields_in_selection_set_impl")
@@ -379,7 +456,8 @@ def r08c(P, R):
                 "get_boolean_variables, so a @skip/@include variable used only there is missing from the branching condition and "
                 "check_skip_directive's expect(\"Type system error\") panics" % (cond_ctx, len(vcalls)), loc=vf.loc())
     # loader: every access to Task.loaded_files uses the same key form
-    TASK = "graphql_loader::tasks::Task"
+    task_adt = [a for a in P.adts.values() if a.path.startswith("graphql_loader::") and a.path.endswith("::Task")]
+    TASK = task_adt[0].path if len(task_adt) == 1 else "graphql_loader::tasks::Task"
     forms = {}
     for f in P.fns.values():
         if not f.path.startswith("graphql_loader::") or f.derived:
@@ -461,3 +539,19 @@ ASSUMPTIONS = ["panic sites are those the inventory recognises (explicit macros,
 
 def main(tier):
     return harness.run_property("C08", RULES, "other", EXPLANATION, ASSUMPTIONS, tier)
+
+
+if __name__ == "__main__":
+    import sys
+    if "--freeze" in sys.argv:
+        # developer tool: record how many sites each table row justifies on /repo's current tree
+        import json
+        from facts import Program
+        d, _ = harness.ensure_facts()
+        Pq = Program(d)
+        Rq = harness.Reporter("C08", "quick")
+        globals()["_FROZEN"] = {}
+        r08a(Pq, Rq)
+        out = {"%s|%s|%s" % (suf, k, w): _ROW_HITS.get(i, 0) for i, (suf, k, w, cls, why) in enumerate(T)}
+        json.dump(out, open(os.path.join(harness.VERIF, "tables", "panic_row_counts.json"), "w"), indent=0, sort_keys=True)
+        print("frozen %d rows" % len(out))
